@@ -162,13 +162,15 @@ Definition sp_pow2_canon (e : Expression) : bool :=
 (* may report: decimal literal with empty/zero/negative exponent whose mantissa ... (see DESIGN 8),
    or any hexadecimal literal.  Outside: literal with a positive exponent, literal whose value is
    not a power of two, anything that is not a literal. *)
+Definition dec_value_plus (s : string) : option N :=
+  match s with String "+"%char r => dec_value r | _ => dec_value s end.
 Definition sp_pow2_match (e : Expression) : bool :=
   match e with
   | Expression_NumberLiteral _ v ex =>
       match ex with
       | String "-"%char _ => true
       | _ => (String.eqb ex "" || denotes_zero ex)
-             && match dec_value v with Some n => sp_is_pow2 n | None => false end
+             && match dec_value_plus v with Some n => sp_is_pow2 n | None => false end
       end
   | Expression_HexNumberLiteral _ _ => true
   | _ => false end.
